@@ -170,7 +170,8 @@ pub fn generate(rng: &mut Rng, property: &str, deep: bool) -> BScn {
     let p_dup = on(rng, 0.2);
     let p_after_end = on(rng, 0.6);
     let operator = property != "C19";
-    let p_toggle = if operator { on(rng, 0.06) } else { 0.0 };
+    // (C19 runs disable / re-enable the animator only rarely)
+    let p_toggle = if operator { on(rng, 0.06) } else { on(rng, 0.012) };
     let p_reset = if operator { on(rng, 0.06) } else { 0.0 };
     let p_retarget = if operator && !cfg.selector { on(rng, 0.08) } else { 0.0 };
     // the app clock may be paused or scaled (then Time::delta differs from the wall-clock delta)
@@ -216,6 +217,10 @@ pub fn generate(rng: &mut Rng, property: &str, deep: bool) -> BScn {
     } else {
         None
     };
+    // (when the animator is prebuilt, the insertion is moved to the frame right after its own
+    // animation ended in half of the cases - decided below, when that frame is known)
+    let mut insert_selector_at = insert_selector_at;
+    let insert_after_end = cfg.selector_inserted_later && cfg.selector_animator_prebuilt && rng.chance(0.5);
     let mut selector_present = cfg.selector && !cfg.selector_inserted_later;
     if cfg.selector && !selector_present {
         // until the selector arrives the prebuilt animator (if any) plays its own timeline
@@ -234,7 +239,10 @@ pub fn generate(rng: &mut Rng, property: &str, deep: bool) -> BScn {
             chain_present = !chain_present;
             ops.push(if chain_present { BOp::InsertChain } else { BOp::RemoveChain });
         }
-        if insert_selector_at == Some(frame_no) {
+        if insert_after_end && just_ended && !selector_present {
+            insert_selector_at = Some(frame_no);
+        }
+        if insert_selector_at == Some(frame_no) && !selector_present {
             ops.push(BOp::InsertSelector);
             selector_present = true;
             cur_key = cfg.initial_key;
